@@ -4,6 +4,9 @@ import os
 import time
 
 VERIF = os.path.dirname(os.path.dirname(os.path.abspath(__file__)))
+# self-test lanes write their evidence and replay files to a scratch directory, never over the evidence of the registered commands
+_LANE = os.environ.get("PALETTE_LANE", "")
+EVID = os.path.join(VERIF, "evidence") if not _LANE else os.path.join(VERIF, ".cache", "lane" + _LANE, "evidence")
 
 
 class Report:
@@ -56,14 +59,14 @@ class Report:
                 kn.append((o, kf))
             else:
                 new.append(o)
-        os.makedirs(os.path.join(VERIF, "evidence", "replay"), exist_ok=True)
+        os.makedirs(os.path.join(EVID, "replay"), exist_ok=True)
         lines = []
         for o, kf in kn:
             ln = "KNOWN-FINDING: property=%s %s [%s %s]" % (self.prop, kf.get("what", o["detail"]), o["rule"], o["key"])
             if ln not in lines:
                 lines.append(ln)
         for o in new:
-            rp = os.path.join(VERIF, "evidence", "replay", "%s-%s.json" % (self.prop, _safe(o["rule"] + "-" + o["key"])))
+            rp = os.path.join(EVID, "replay", "%s-%s.json" % (self.prop, _safe(o["rule"] + "-" + o["key"])))
             with open(rp, "w") as fh:
                 json.dump({"property": self.prop, "rule": o["rule"], "key": o["key"], "loc": o["loc"], "detail": o["detail"],
                            "replay": "./check %s --only '%s'" % (self.prop, o["key"])}, fh, indent=1)
@@ -106,7 +109,7 @@ class Report:
             "wall_s": round(time.time() - self.t0, 2),
             "violations": len(new),
         }
-        with open(os.path.join(VERIF, "evidence", self.prop + ".json"), "w") as fh:
+        with open(os.path.join(EVID, self.prop + ".json"), "w") as fh:
             json.dump(ev, fh, indent=1)
         return lines, len(new)
 
